@@ -41,10 +41,15 @@ LifeOpenWhileOpen(r) ==           \* Open on an open connection: already-open, n
 LifeReopen(r) == r.reopen_ok /\ r.reopen_roundtrip   \* a closed connection can be opened again and behaves like a fresh one
 LifeStaysRecoverable(r) == r.reached_selected        \* whatever the history, an open connection gets (back) to Selected once the peer behaves
 
+(* impl/Connection OneLiveGeneration, observed on the sockets: a new generation's dial / listen only after the previous
+   generation's socket / listener was closed (the reconnect loop waits for the full teardown) *)
+LifeOneGeneration(r) == r.dial_overlap = 0 /\ r.listen_overlap = 0
+
 Clauses(r) == << <<"LifeNoPanicNoHang", LifeNoPanicNoHang(r)>>, <<"LifeResultKinds", LifeResultKinds(r)>>,
                  <<"LifeCloseBounded", LifeCloseBounded(r)>>, <<"LifeCloseIdempotent", LifeCloseIdempotent(r)>>,
                  <<"LifeCloseLeavesNothing", LifeCloseLeavesNothing(r)>>, <<"LifeOpenWhileOpen", LifeOpenWhileOpen(r)>>,
-                 <<"LifeReopen", LifeReopen(r)>>, <<"LifeStaysRecoverable", LifeStaysRecoverable(r)>> >>
+                 <<"LifeReopen", LifeReopen(r)>>, <<"LifeStaysRecoverable", LifeStaysRecoverable(r)>>,
+                 <<"LifeOneGeneration", LifeOneGeneration(r)>> >>
 Failing(r) == SelectSeq(Clauses(r), LAMBDA c : ~c[2])
 RECURSIVE Join(_)
 Join(cs) == IF cs = <<>> THEN "" ELSE IF Len(cs) = 1 THEN cs[1][1] ELSE cs[1][1] \o "_" \o Join(Tail(cs))
